@@ -959,6 +959,174 @@ Proof.
 Qed.
 
 (* ====================================================================== *)
+(* J. `bases` is aligned with the cut ids                                  *)
+(* ====================================================================== *)
+(* the cut id and basis handle of a one-qubit placeholder *)
+Definition cut_of (x : instr) : option (nat * nat) :=
+  match iop x with Qpd1 b _ _ (Some (_, Some k)) => Some (k, b) | _ => None end.
+Definition all_instrs (d : list (nat * mcirc)) : circ := flat_map (fun lc => mdata (snd lc)) d.
+
+Lemma bases_step_cut acc x :
+  bases_step acc x = match cut_of x with Some (k, b) => aset acc k b | None => acc end.
+Proof. unfold bases_step, cut_of. destruct (iop x) as [| | | | | | |b h bid [[l [k|]]|]|]; reflexivity. Qed.
+
+Lemma cut_of_suffix x k : suffix_of x = Some (Some k) <-> exists b, cut_of x = Some (k, b).
+Proof.
+  unfold suffix_of, cut_of. destruct (iop x) as [| | | | | | |b h bid [[l [k'|]]|]|]; split;
+    try discriminate; try (intros (b' & H); discriminate).
+  - intros H. inversion H. eauto.
+  - intros (b' & H). inversion H. reflexivity.
+Qed.
+
+Lemma bases_dict_flat d : bases_dict d = fold_left bases_step (all_instrs d) [].
+Proof.
+  unfold bases_dict, all_instrs. generalize (@nil (nat * nat)).
+  induction d as [|lc d IH]; intros acc; [reflexivity|]. cbn [fold_left flat_map].
+  now rewrite fold_left_app, IH.
+Qed.
+
+Lemma alookup_aset {V} (d : list (nat * V)) k v k' :
+  alookup (aset d k v) k' = if Nat.eqb k' k then Some v else alookup d k'.
+Proof.
+  induction d as [|[k0 v0] d IH]; cbn [aset alookup]; [reflexivity|].
+  destruct (Nat.eqb_spec k k0) as [->|Hne]; cbn [alookup].
+  - destruct (Nat.eqb k' k0); reflexivity.
+  - rewrite IH. destruct (Nat.eqb_spec k' k0) as [->|H0]; [|reflexivity].
+    destruct (Nat.eqb_spec k0 k); [congruence|reflexivity].
+Qed.
+
+Lemma aset_keys_In {V} (d : list (nat * V)) k v k' :
+  In k' (map fst (aset d k v)) <-> k' = k \/ In k' (map fst d).
+Proof.
+  induction d as [|[k0 v0] d IH]; cbn [aset map fst In]; [intuition|].
+  destruct (Nat.eqb_spec k k0) as [->|Hne]; cbn [map fst In]; [intuition|]. rewrite IH. intuition.
+Qed.
+
+Lemma aset_keys_NoDup {V} (d : list (nat * V)) k v : NoDup (map fst d) -> NoDup (map fst (aset d k v)).
+Proof.
+  induction d as [|[k0 v0] d IH]; cbn [aset map fst]; intros H; [repeat constructor; intros []|].
+  inversion H as [|? ? Hn Hd]; subst.
+  destruct (Nat.eqb_spec k k0) as [->|Hne]; cbn [map fst]; [now constructor|].
+  constructor; [|now apply IH]. rewrite aset_keys_In. intros [E|E]; [congruence|contradiction].
+Qed.
+
+Lemma alookup_In_key {V} (d : list (nat * V)) k : In k (map fst d) -> exists v, alookup d k = Some v.
+Proof.
+  induction d as [|[k0 v0] d IH]; cbn [map fst In alookup]; [intros []|].
+  destruct (Nat.eqb_spec k k0) as [->|Hne]; [eauto|]. intros [E|E]; [congruence|now apply IH].
+Qed.
+
+Lemma fold_bases_keys L : forall acc k,
+  In k (map fst (fold_left bases_step L acc)) <->
+  In k (map fst acc) \/ exists x b, In x L /\ cut_of x = Some (k, b).
+Proof.
+  induction L as [|x L IH]; intros acc k; cbn [fold_left].
+  - split; [now left|intros [H|(x & b & [] & _)]; exact H].
+  - rewrite IH, bases_step_cut. destruct (cut_of x) as [[k0 b0]|] eqn:E.
+    + rewrite aset_keys_In. split.
+      * intros [[->|H]|(y & b & Hy & Hc)]; [right; exists x, b0; split; [now left|exact E]|now left|
+                                            right; exists y, b; split; [now right|exact Hc]].
+      * intros [H|(y & b & [<-|Hy] & Hc)]; [left; now right| |right; eauto].
+        rewrite E in Hc. inversion Hc; subst. left; now left.
+    + split.
+      * intros [H|(y & b & Hy & Hc)]; [now left|right; exists y, b; split; [now right|exact Hc]].
+      * intros [H|(y & b & [<-|Hy] & Hc)]; [now left|congruence|right; eauto].
+Qed.
+
+Lemma fold_bases_NoDup L : forall acc, NoDup (map fst acc) -> NoDup (map fst (fold_left bases_step L acc)).
+Proof.
+  induction L as [|x L IH]; intros acc H; cbn [fold_left]; [exact H|]. apply IH.
+  rewrite bases_step_cut. destruct (cut_of x) as [[k0 b0]|]; [now apply aset_keys_NoDup|exact H].
+Qed.
+
+Lemma fold_bases_lookup L : forall acc k b,
+  alookup (fold_left bases_step L acc) k = Some b ->
+  alookup acc k = Some b \/ exists x, In x L /\ cut_of x = Some (k, b).
+Proof.
+  induction L as [|x L IH]; intros acc k b H; cbn [fold_left] in H; [now left|].
+  destruct (IH _ _ _ H) as [H1|(y & Hy & Hc)]; [|right; exists y; split; [now right|exact Hc]].
+  rewrite bases_step_cut in H1. destruct (cut_of x) as [[k0 b0]|] eqn:E; [|now left].
+  rewrite alookup_aset in H1. destruct (Nat.eqb_spec k k0) as [->|Hne]; [|now left].
+  inversion H1; subst. right. exists x. split; [now left|exact E].
+Qed.
+
+(* a strictly increasing list of n numbers below n is 0, 1, ..., n-1 *)
+Lemma sorted_offset : forall l s, StronglySorted lt l -> (forall x, In x l -> s <= x) ->
+  forall i x, nth_error l i = Some x -> s + i <= x.
+Proof.
+  induction l as [|a r IH]; intros s Hs Hge i x Hx; [destruct i; discriminate|].
+  apply StronglySorted_inv in Hs as (Hr & Hall). rewrite Forall_forall in Hall.
+  destruct i as [|i]; cbn [nth_error] in Hx.
+  - inversion Hx; subst. specialize (Hge x (or_introl eq_refl)). lia.
+  - specialize (IH (S a) Hr (fun y Hy => Hall y Hy) i x Hx).
+    specialize (Hge a (or_introl eq_refl)). lia.
+Qed.
+
+Lemma sorted_bounded_is_seq : forall l s, StronglySorted lt l ->
+  (forall x, In x l -> s <= x < s + length l) -> l = seq s (length l).
+Proof.
+  induction l as [|a r IH]; intros s Hs Hb; [reflexivity|]. cbn [length seq].
+  pose proof Hs as Hs'. apply StronglySorted_inv in Hs' as (Hr & Hall). rewrite Forall_forall in Hall.
+  assert (Ha : a = s).
+  { destruct (nth_error (a :: r) (length r)) as [x|] eqn:E;
+      [|apply nth_error_None in E; cbn [length] in E; lia].
+    pose proof (sorted_offset (a :: r) a Hs) as Ho.
+    assert (Hge : forall y, In y (a :: r) -> a <= y).
+    { intros y [<-|Hy]; [lia|]. specialize (Hall y Hy). lia. }
+    specialize (Ho Hge _ _ E).
+    pose proof (Hb x (nth_error_In _ _ E)) as Hx. pose proof (Hb a (or_introl eq_refl)) as Ha.
+    cbn [length] in *. lia. }
+  subst a. f_equal. apply IH; [exact Hr|].
+  intros x Hx. specialize (Hall x Hx). specialize (Hb x (or_intror Hx)). cbn [length] in Hb. lia.
+Qed.
+
+Lemma insert_sorted_length x l : length (insert_sorted x l) = S (length l).
+Proof. induction l as [|y r IH]; simpl; [reflexivity|]. destruct (Nat.leb x y); simpl; congruence. Qed.
+Lemma isort_length l : length (isort l) = length l.
+Proof. induction l as [|x r IH]; simpl; [reflexivity|]. now rewrite insert_sorted_length, IH. Qed.
+
+(* if every cut id is an index into `bases`, then the ids are exactly 0..n-1 and bases[k] is the basis stored
+   for cut k, i.e. the basis of a placeholder labelled _k *)
+Theorem bases_aligned d :
+  (forall x k, In x (all_instrs d) -> suffix_of x = Some (Some k) -> k < length (bases_by_partition d)) ->
+  forall x k, In x (all_instrs d) -> suffix_of x = Some (Some k) ->
+    exists b, nth_error (bases_by_partition d) k = Some b /\
+              exists x', In x' (all_instrs d) /\ cut_of x' = Some (k, b).
+Proof.
+  unfold bases_by_partition. set (bd := bases_dict d). rewrite map_length, isort_length, map_length.
+  intros Hlt x k Hx Hk.
+  assert (Hkeys : forall k', In k' (map fst bd) <-> exists y b, In y (all_instrs d) /\ cut_of y = Some (k', b)).
+  { intros k'. unfold bd. rewrite bases_dict_flat, fold_bases_keys. cbn [map In]. tauto. }
+  assert (Hnd : NoDup (map fst bd)).
+  { unfold bd. rewrite bases_dict_flat. apply fold_bases_NoDup. constructor. }
+  assert (Hseq : isort (map fst bd) = seq 0 (length bd)).
+  { rewrite <- (map_length fst bd), <- (isort_length (map fst bd)).
+    apply sorted_bounded_is_seq; [now apply isort_sorted|].
+    intros k' Hk'. rewrite isort_length, map_length. split; [lia|].
+    apply isort_In, Hkeys in Hk' as (y & b & Hy & Hc).
+    apply (Hlt y k' Hy). apply cut_of_suffix. eauto. }
+  rewrite Hseq.
+  assert (Hin : In k (map fst bd)) by (apply Hkeys; apply cut_of_suffix in Hk as (b & Hb); eauto).
+  destruct (alookup_In_key bd k Hin) as (b & Hb).
+  exists b. split.
+  - rewrite nth_error_map.
+    assert (Hk' : k < length bd) by (apply (Hlt x k Hx Hk)).
+    assert (E : nth_error (seq 0 (length bd)) k = Some k).
+    { rewrite (nth_error_nth' _ 0) by (rewrite seq_length; exact Hk'). now rewrite seq_nth. }
+    rewrite E. cbn [option_map]. now rewrite Hb.
+  - unfold bd in Hb. rewrite bases_dict_flat in Hb.
+    destruct (fold_bases_lookup _ _ _ _ Hb) as [H|H]; [discriminate|exact H].
+Qed.
+
+(* a successful projection only uses cut ids that are indices into the joint map *)
+Lemma project_bound joint sfx ms k : project joint sfx = Ok ms -> In k sfx -> k < length joint.
+Proof.
+  intros H Hk. apply project_spec in H. revert Hk.
+  induction H as [|k0 m0 sfx ms Hm HF IH]; intros Hk; [destruct Hk|].
+  destruct Hk as [<-|Hk]; [|now apply IH]. apply nth_error_Some. congruence.
+Qed.
+
+(* ====================================================================== *)
 (* I. bridge to Model/Weights.v (property C04): same shapes, other names   *)
 (* ====================================================================== *)
 From CKT Require Model.Weights.
